@@ -22,6 +22,28 @@ class C04(Check):
     ]
     budgets = {"quick": {"n": 70, "wall": 170}, "thorough": {"n": 900, "wall": 1500}}
 
+    def extra_batches(self, tier):
+        """every manifest shape of the corpus, alone and after a store that cannot take the dependency, with a
+        dependency-adding codemod (the four writers and the store fall-through each consult dry_run on their own)"""
+        import random
+
+        exps = []
+        ms = W.manifests()
+        blockers = [m["idx"] for m in ms if m["name"] in ("pyproject-no-deps-key", "setuppy-no-install-requires", "setupcfg-no-options")]
+        for m in ms:
+            rng = random.Random(f"c04-fixed-{m['idx']}")
+            cid = rng.choice(["pixee:python/url-sandbox", "pixee:python/use-defusedxml", "pixee:python/harden-pickle-load"])
+            r = G.pick_snippet(rng, cid)
+            files = [{"path": "pkg/app.py", "snippets": [r["idx"]], "layout": {}}, {"path": "sub/" + m["file"] if m["file"] != "setup.py" else m["file"], "manifest": m["idx"]}]
+            if m["idx"] % 2:
+                b = ms[blockers[m["idx"] % len(blockers)]]
+                if b["file"] != m["file"]:
+                    files.append({"path": b["file"], "manifest": b["idx"]})
+            exps.append({"kind": "corpus:" + m["file"], "world_spec": {"files": files}, "include": [cid], "plugins": False, "path_include": None,
+                         "extra_findings": {}, "single": True, "sched": {"seed": m["idx"], "policy": "fifo", "line_p": 0.0}, "workers": None,
+                         "enum_seed": None})
+        return exps
+
     def gen(self, rng, i, tier):
         single = rng.random() < 0.66
         exp = G.gen_general(rng, max_codemods=1 if single else 4)
